@@ -80,7 +80,7 @@ def _walk(o, f):
     return o
 
 
-def finalize(trace, max_scale=5040 * 4):
+def finalize(trace, max_scale=720720):
     """integer ticks: scale = lcm of all denominators occurring in the trace"""
     dens = set()
 
